@@ -264,6 +264,31 @@ def check_self_package(ctx, vis):
                 extra.append(sorted(fl))
     ctx.ob("R17.3", "self-skip|packages", okp and not extra, "discovery skips exactly the references whose name equals the document's package name" if okp and not extra else
            "discovery's own-package test is not a comparison of names only (%s)" % extra)
+    # every reference that is not the document's own package is recorded: a return that avoids the insert is only taken on
+    # the equal edge of the own-package comparison
+    for f in pk:
+        if "{closure#0}::{closure" in f.id:
+            continue
+        cfg = CFG(f)
+        ins = [t for t in f.calls() if (t.path or "").endswith("IndexMap::insert")]
+        if not ins:
+            continue
+        own_true = []
+        for bb, a, b, site in cmp_sites(f):
+            sa, sb = prov.slice(f, a), prov.slice(f, b)
+            fl = sa.field_names() | sb.field_names()
+            if "name" in fl and "package" in fl and hasattr(site, "target"):
+                sw = switch_after(cfg, site)
+                if sw is not None:
+                    tt, ft = true_false_targets(sw)
+                    eq = (site.declared or "").endswith("::eq")
+                    own_true += list(tt if eq else ft)
+        rets = [b.idx for b in f.blocks if b.term.k == "return" and not b.cleanup]
+        okr = bool(own_true) and cfg.must_pass([t.bb for t in ins] + own_true, src=0, dsts=set(rets))
+        ctx.ob("R17.3", "record-every-reference", okr,
+               "the discovery callback returns without recording a reference only for the document's own package" if okr else
+               "the discovery callback can return without recording the (name, version) it was given on a path other than the own-package skip "
+               "(e.g. 'name already seen'): a second version of a package that is referenced is never reported", site=f.span)
     # keys carry the version
     okk = any(any((t.path or "").endswith("BorrowedPackageKey::from_name_and_version") for t in f.calls()) for f in pk)
     ctx.ob("R17.3", "key-name-and-version", okk, "discovered packages are keyed by name and version" if okk else "discovered packages are not keyed by (name, version)")
